@@ -52,6 +52,10 @@ def alphabet(v: int) -> dict[str, tuple]:
         "get_trial": ("get_trial", "t_run"),
         "get_n_trials": ("get_n_trials", "s"),
         "get_best": ("get_best", "s"),
+        # study-level calls (thread configurations; mem in quick, all in thorough)
+        "study_attr": ("study_attr", "s", f"k{v}", v),
+        "get_studies": ("get_all_studies",),
+        "id_from_number": ("id_from_number", "s", 3),  # number 3 = the first trial created by a program
     }
 
 
@@ -108,7 +112,8 @@ def scenarios(tier: str) -> list[tuple]:
     for cfg in SQL_CONFIGS:
         bound = 1 if tier == "quick" else 2
         names = NAMES if tier == "thorough" else (QUICK_NAMES if cfg == "rdb-procs" else ["create_trial", "claim", "finish", "user_attr", "get_all_trials", "get_waiting"])
-        names = [n for n in names if n != "get_all_dc"]  # processes: the copy is private to the reader
+        # processes: the copy is private to the reader; the study-level calls are thread-part only
+        names = [n for n in names if n not in ("get_all_dc", "study_attr", "get_studies", "id_from_number")]
         for i, a in enumerate(names):
             for b in names[i:]:
                 if a == b and a in NO_SELF_PAIR:
@@ -237,7 +242,9 @@ def scenario_task(task: tuple) -> dict:
         mods = [importlib.import_module(m) for m in THREAD_CONFIGS[cfg]]
         from . import thx as _thx
 
-        _thx.install_copy_points()
+        # not over SQLite: a copy made inside an open transaction would be a pre-emption point
+        # while the real database holds its write lock (the wait is SQLite's, not modelled here)
+        _thx.install_copy_points(enabled=cfg != "cached")
         sc = Scenario(cfg, "std", build_programs(names), mods)
         engine = "thx"
     outcomes: set = set()
@@ -288,7 +295,7 @@ def scenario_task(task: tuple) -> dict:
         part.add("scenarios")
     part.add("states", len({o[:2] for o in outcomes}))  # distinct observable outcomes
     part.add("traces_validated_against_impl", len(sc._seq_cache))
-    if len(outcomes) == 1 and len({n for p in names for n in p} & {"get_trial", "get_n_trials", "get_best", "get_all_trials", "get_all_dc", "get_waiting"}) == 0 and names[0] != names[1 % len(names)]:
+    if len(outcomes) == 1 and len({n for p in names for n in p} & {"get_trial", "get_n_trials", "get_best", "get_all_trials", "get_all_dc", "get_waiting", "get_studies", "id_from_number"}) == 0 and names[0] != names[1 % len(names)]:
         part.note(f"single outcome for {cfg} {names}")
     part.setmax("max_points", st["max_points"])
     if part.cov.get("executions", 0) and len(part.samples) == 0:
@@ -338,7 +345,7 @@ def run(tier: str, replay: str | None = None) -> int:
     backends.cleanup_root()
     return ctx.finish(
         exhaustive=not ctx.cov.get("caps_hit"),
-        rule="all schedules up to the preemption bound of every unordered pair of the 16-op alphabet (2 threads x 1 op) plus curated 2x2 and 3x1 programs, per configuration; states = distinct observable outcomes",
+        rule="all schedules up to the preemption bound of every unordered pair of the 19-op alphabet (2 threads x 1 op) plus curated 2x2 and 3x1 programs, per configuration; states = distinct observable outcomes",
         extra={"preemption_bound": {"quick": "pairs: mem 2, jlist/grpc(mem)/cached 1; 2x2 and 3x1 programs: 1", "thorough": "pairs: 3 (cached 2); 2x2/3x1: 2"}[tier]},
     )
 
